@@ -1935,8 +1935,6 @@ func obKeys(c *Ctx, fn *ssa.Function, obs []boundOb) ([]string, []string) {
 	sort.SliceStable(obs, func(i, j int) bool { return obs[i].in.Pos() < obs[j].in.Pos() })
 	cnt := map[string]int{}
 	ord := map[ssa.Instruction]int{}
-	ncnt := map[string]int{}
-	nord := map[ssa.Instruction]int{}
 	keys := make([]string, len(obs))
 	nkeys := make([]string, len(obs))
 	trunc := func(e string) string {
@@ -1954,14 +1952,13 @@ func obKeys(c *Ctx, fn *ssa.Function, obs []boundOb) ([]string, []string) {
 			ord[o.in] = n
 		}
 		keys[i] = fmt.Sprintf("%s#%d|%s", k, n, o.why)
-		nk := c.fnName(fn) + "|" + o.kind + "|" + trunc(o.nexpr)
-		m, ok := nord[o.in]
-		if !ok {
-			ncnt[nk]++
-			m = ncnt[nk]
-			nord[o.in] = m
+		// name-free key: outermost enclosing function (a block moved into a function literal keeps its key),
+		// no ordinal (statements may be reordered); the expression text and the clause identify the obligation
+		top := fn
+		for top.Parent() != nil {
+			top = top.Parent()
 		}
-		nkeys[i] = fmt.Sprintf("%s#%d|%s", nk, m, o.why)
+		nkeys[i] = fmt.Sprintf("%s|%s|%s|%s", c.fnName(top), o.kind, trunc(o.nexpr), o.why)
 	}
 	return keys, nkeys
 }
